@@ -57,6 +57,7 @@ type cellCase struct {
 	Arbitrary            bool // state rows hold arbitrary small non-negative values
 	Snapped              bool // some inputs sit exactly on table knots / thresholds
 	Mixed                bool // cells differ in state-vector width (zero-padded rows)
+	NearEqual            bool // sibling whose parameters differ from its twin's by a few parts in 10^9
 	WidestFirst          bool // cell 0 has the widest state vector (what InitialiseStates supports)
 	ForeignX4            bool // GR4J states produced under another X4 (store lengths differ from the parameter's)
 	own                  []int
@@ -362,14 +363,33 @@ func drawSibling(w *simrt.Tape, a *cellCase) *cellCase {
 	c := &cellCase{Model: a.Model, desc: a.desc, N: a.N, P: a.P, I: a.I, T: a.T, MaxDim: a.MaxDim,
 		CIn: a.CIn, CSt: a.CSt, COut: a.COut, CPar: a.CPar}
 	class := domains.StateWidthClass(a.Model, a.cols[0])
-	for j := 0; j < c.P; j++ {
-		force := 0
-		if j == 0 && c.MaxDim > 0 {
-			force = c.MaxDim
+	if w.Bool(35) && len(a.cols[0]) > 0 {
+		// a near-equal sibling: the same parameter sets except for one value that differs by a few
+		// parts in 10^9 (two catchments calibrated to almost the same number): anything keyed on a
+		// rounded parameter value confuses the two
+		for j := 0; j < c.P; j++ {
+			c.cols = append(c.cols, cloneF(a.cols[j]))
 		}
-		col := domains.GenParams(w, c.Model, c.MaxDim, force)
-		domains.ForceStateWidthClass(c.Model, col, class)
-		c.cols = append(c.cols, col)
+		j, i := w.Choose(c.P), w.Choose(len(a.cols[0]))
+		old := c.cols[j][i]
+		if old != 0 && a.MaxDim == 0 {
+			c.cols[j][i] = old * (1 + float64(1+w.Choose(30))*1e-9)
+			if domains.StateWidthClass(c.Model, c.cols[j]) != domains.StateWidthClass(c.Model, a.cols[j]) {
+				c.cols[j][i] = old
+			} else {
+				c.NearEqual = true
+			}
+		}
+	} else {
+		for j := 0; j < c.P; j++ {
+			force := 0
+			if j == 0 && c.MaxDim > 0 {
+				force = c.MaxDim
+			}
+			col := domains.GenParams(w, c.Model, c.MaxDim, force)
+			domains.ForceStateWidthClass(c.Model, col, class)
+			c.cols = append(c.cols, col)
+		}
 	}
 	for b := 0; b < c.I; b++ {
 		blk := domains.GenInputs(w, c.Model, c.cols[b%c.P], c.MaxDim, c.T)
